@@ -17,6 +17,9 @@ CHECKS = {
     "C02": ("model_checking", MC,
             "On the same exhaustive traversal, every HPKE encryption made while a commit is built is checked against the copath resolutions of the new tree as computed by an independent tree parser, and every later message is offered to every retained ex-member state and outsider.",
             "Trusted: explorer, reference tree parser (RFC 9420 4.1.1), recording provider wrapper. Same bounds as C01.", "DESIGN.md 2/C02"),
+    "C03": ("model_checking", "exhaustive mutation enumeration over a corpus of real messages with their pre-delivery worlds: all bit flips, all truncations, all field splices, cross-epoch / cross-group / post-state replays, insider re-signed forgeries, adversarial-committer structural mutations; every mutant delivered to every legitimate receiver of the real implementation",
+            "For every message kind of a scripted world and every legitimate receiver: every single-bit flip, truncation, field splice with a same-epoch partner, replay into other epochs / another group / the post-state is rejected without panic (genuine deliveries are accepted and truthfully reported); insider forgeries (re-attribution re-signed with the forger's key under a valid membership tag) are rejected; structurally invalid commits from an adversarial committer whose library computes everything downstream consistently never panic and wrong path lengths are rejected by everybody.",
+            "Trusted: explorer, reference framing parser, hooks verif_epoch_keys (H6) and encap::Mutation (H7). One scripted world per configuration (2 quick, 12 thorough).", "DESIGN.md 2/C03"),
     "C04": ("model_checking", MC + "; in every state a menu of must-be-rejected messages is enumerated per member (fault/mutation enumeration on forks)",
             "In every state of a history traversal and for every member, every region of every deliverable genuine message is mutated once per kind (bit flips, truncations), plus semantically unacceptable authentic messages and failing builds; each on a fork: the complete canonical state (hook H1) must be identical after the error, the genuine message must then lead to the twin's state, and the next send must be accepted.",
             "Trusted: explorer, hook verif_state normal forms (DESIGN 1.4a), reference framing parser. Depth one less than C01. Known findings F-C04-1/2 (ratchet key consumed by rejected private messages) are listed in known-findings.json.", "DESIGN.md 2/C04"),
